@@ -185,39 +185,59 @@ def reduceSsthresh (s : Snd) : Snd :=
 
 def sndEnd (s : Snd) : Nat := addS s.sndUna (s.sndWnd % M)
 
+/-- first transmission: the segment gets its sequence number (`flags = 0` marks "never sent") -/
+def WSeg.assign (seg : WSeg) (sndNxt : Nat) : WSeg :=
+  if seg.flags == 0 then { seg with seq := sndNxt, flags := fAck ||| fPsh } else seg
+
+def Snd.bumpNxt (s : Snd) (segEnd : Nat) : Snd := if lt s.sndNxt segEnd then { s with sndNxt := segEnd } else s
+
+/-- transmit a prepared write-list entry and advance `sndNxt` past it if it is new -/
+def emitAt (e : Ep) (seg : WSeg) (segEnd : Nat) : Ep × OutSeg :=
+  let r := sendSegment e seg.data seg.flags seg.seq
+  ({ r.1 with snd := r.1.snd.bumpNxt segEnd }, r.2)
+
+def Ep.setWriteNext (e : Ep) (i : Nat) : Ep := { e with snd := { e.snd with writeNext := i } }
+
+/-- split entry `i` when it is longer than what may be sent now: the rest becomes a new entry behind it -/
+def splitAt (wl : List WSeg) (i : Nat) (seg : WSeg) (available : Nat) : List WSeg × WSeg :=
+  if seg.data.length > available then
+    let nSeg : WSeg := { seq := addS seg.seq available, flags := seg.flags, data := seg.data.drop available }
+    let seg' := { seg with data := seg.data.take available }
+    ((wl.set i seg').take (i + 1) ++ [nSeg] ++ wl.drop (i + 1), seg')
+  else (wl.set i seg, seg)
+
+inductive SendRes
+  | stop (e : Ep)
+  | sent (e : Ep) (o : OutSeg)
+
+/-- one iteration of the `sendData` loop at write-list position `i` -/
+def sendStep (e : Ep) (i : Nat) : SendRes :=
+  match e.snd.writeList[i]? with
+  | none => .stop (e.setWriteNext i)
+  | some seg0 =>
+    if !(e.snd.outstanding < (e.snd.cwnd : Int)) then .stop (e.setWriteNext i) else
+    let seg := seg0.assign e.snd.sndNxt
+    if seg.data.length == 0 then
+      -- FIN
+      let seg := { seg with flags := fAck ||| fFin }
+      let r := emitAt { e with snd := { e.snd with writeList := e.snd.writeList.set i seg } } seg (addS seg.seq 1)
+      .sent r.1 r.2
+    else
+      let endW := sndEnd e.snd
+      if !lt seg.seq endW then .stop { e with snd := { e.snd with writeList := e.snd.writeList.set i seg, writeNext := i } } else
+      let available := min (sizeS seg.seq endW) e.snd.maxPayload
+      let sp := splitAt e.snd.writeList i seg available
+      let r := emitAt { e with snd := { e.snd with writeList := sp.1, outstanding := e.snd.outstanding + 1 } } sp.2
+                 (addS sp.2.seq sp.2.data.length)
+      .sent r.1 r.2
+
 /-- `sendData` loop; `fuel` bounds the iterations (each one advances `writeNext`) -/
 def sendDataLoop : Nat → Ep → Nat → List OutSeg → Ep × List OutSeg
-  | 0, e, i, out => ({ e with snd := { e.snd with writeNext := i } }, out)
+  | 0, e, i, out => (e.setWriteNext i, out)
   | fuel + 1, e, i, out =>
-    let s := e.snd
-    match s.writeList[i]? with
-    | none => ({ e with snd := { s with writeNext := i } }, out)
-    | some seg =>
-      if !(s.outstanding < (s.cwnd : Int)) then ({ e with snd := { s with writeNext := i } }, out) else
-      let seg := if seg.flags == 0 then { seg with seq := s.sndNxt, flags := fAck ||| fPsh } else seg
-      if seg.data.length == 0 then
-        -- FIN
-        let seg := { seg with flags := fAck ||| fFin }
-        let s1 := { s with writeList := s.writeList.set i seg }
-        let (e1, o) := sendSegment { e with snd := s1 } seg.data seg.flags seg.seq
-        let segEnd := addS seg.seq 1
-        let s2 := if lt e1.snd.sndNxt segEnd then { e1.snd with sndNxt := segEnd } else e1.snd
-        sendDataLoop fuel { e1 with snd := s2 } (i + 1) (out ++ [o])
-      else
-        let endW := sndEnd s
-        if !lt seg.seq endW then ({ e with snd := { s with writeList := s.writeList.set i seg, writeNext := i } }, out) else
-        let available := min (sizeS seg.seq endW) s.maxPayload
-        let (wl, seg) :=
-          if seg.data.length > available then
-            let nSeg : WSeg := { seq := addS seg.seq available, flags := seg.flags, data := seg.data.drop available }
-            let seg' := { seg with data := seg.data.take available }
-            ((s.writeList.set i seg').take (i + 1) ++ [nSeg] ++ s.writeList.drop (i + 1), seg')
-          else (s.writeList.set i seg, seg)
-        let s1 := { s with writeList := wl, outstanding := s.outstanding + 1 }
-        let (e1, o) := sendSegment { e with snd := s1 } seg.data seg.flags seg.seq
-        let segEnd := addS seg.seq seg.data.length
-        let s2 := if lt e1.snd.sndNxt segEnd then { e1.snd with sndNxt := segEnd } else e1.snd
-        sendDataLoop fuel { e1 with snd := s2 } (i + 1) (out ++ [o])
+    match sendStep e i with
+    | .stop e' => (e', out)
+    | .sent e' o => sendDataLoop fuel e' (i + 1) (out ++ [o])
 
 def sendData (e : Ep) : Ep × List OutSeg :=
   let (e1, out) := sendDataLoop (e.snd.writeList.length * 2 + 70000) e e.snd.writeNext []
@@ -274,40 +294,42 @@ def ackLoop : Nat → Snd → Nat → Snd
 def updateRecentTimestamp (e : Ep) (tsVal maxSentAck segSeq : Nat) : Ep :=
   if e.sendTSOk && lt e.recentTS tsVal && le segSeq maxSentAck then { e with recentTS := tsVal } else e
 
+/-- the acknowledgement covers new data: stop the timer, slide the window, update the congestion state -/
+def ackAdvance (s : Snd) (ack : Nat) : Snd :=
+  let s0 := { s with dupAck := 0, timerEnabled := false }
+  let acked := sizeS s0.sndUna ack
+  let s1 := ackLoop (s0.writeList.length + 1) { s0 with sndUna := ack } acked
+  let s2 := if !s1.fr.active then
+      let d := s0.outstanding - s1.outstanding
+      renoUpdate s1 (if d < 0 then 0 else d.toNat)
+    else s1
+  if s2.outstanding < 0 then { s2 with outstanding := 0 } else s2
+
 /-- `sender.handleRcvdSegment` (window already scaled) -/
 def sndHandleSegment (e : Ep) (seg : InSeg) (window : Nat) (ts : Model.Header.TCPOpts) : Ep × List OutSeg :=
-  let e := updateRecentTimestamp e ts.tsVal e.snd.maxSentAck seg.seq
-  let (s, rtx) := checkDuplicateAck e.snd seg.ack seg.logicalLen window
-  let s := { s with sndWnd := window }
-  let ack := seg.ack
-  let (e, s) :=
-    if inRange (subS ack 1) s.sndUna s.sndNxt then
-      let s := { s with dupAck := 0, timerEnabled := false }
-      let acked := sizeS s.sndUna ack
-      let orig := s.outstanding
-      let s := ackLoop (s.writeList.length + 1) { s with sndUna := ack } acked
-      let e := { e with sndBufUsed := e.sndBufUsed - acked }
-      let s := if !s.fr.active then
-          let d := orig - s.outstanding
-          renoUpdate s (if d < 0 then 0 else d.toNat)
-        else s
-      let s := if s.outstanding < 0 then { s with outstanding := 0 } else s
-      (e, s)
-    else (e, s)
-  let e := { e with snd := s }
-  let (e, o1) := if rtx then resendSegment e else (e, [])
-  let (e, o2) := sendData e
-  (e, o1 ++ o2)
+  let e0 := updateRecentTimestamp e ts.tsVal e.snd.maxSentAck seg.seq
+  let c := checkDuplicateAck e0.snd seg.ack seg.logicalLen window
+  let s := { c.1 with sndWnd := window }
+  let e1 : Ep :=
+    if inRange (subS seg.ack 1) s.sndUna s.sndNxt then
+      { e0 with snd := ackAdvance s seg.ack, sndBufUsed := e0.sndBufUsed - sizeS s.sndUna seg.ack }
+    else { e0 with snd := s }
+  let r1 := if c.2 then resendSegment e1 else (e1, [])
+  let r2 := sendData r1.1
+  (r2.1, r1.2 ++ r2.2)
 
-/-- the retransmission timer fired -/
-def retransmitTimerExpired (e : Ep) : Ep × List OutSeg :=
-  if !e.snd.timerEnabled then (e, []) else
-  let s := { e.snd with timerEnabled := false }
+/-- sender state after a retransmission timeout: recovery is abandoned, the window collapses to one
+segment, everything is to be sent again from the head of the write list -/
+def rtoState (s : Snd) : Snd :=
+  let s := { s with timerEnabled := false }
   let s := if s.fr.active then leaveFastRecovery s else s
   let s := { s with fr := { s.fr with last := subS s.sndNxt 1 } }
   let s := { (reduceSsthresh s) with cwnd := 1 }
-  let s := { s with outstanding := 0, writeNext := 0 }
-  sendData { e with snd := s }
+  { s with outstanding := 0, writeNext := 0 }
+
+/-- the retransmission timer fired -/
+def retransmitTimerExpired (e : Ep) : Ep × List OutSeg :=
+  if !e.snd.timerEnabled then (e, []) else sendData { e with snd := rtoState e.snd }
 
 /-! ### receiver -/
 
@@ -330,31 +352,35 @@ def updateSack (bl : List (Nat × Nat)) (segStart segEnd rcvNxt : Nat) : List (N
       else (nb, kept ++ [b])) ((segStart, segEnd), [])
   if lt rcvNxt nb.1 then nb :: (if kept.length == 6 then kept.take 5 else kept) else kept
 
+/-- the part of a segment that is new: `none` if it does not start at or before `rcvNxt` and reach beyond it
+(`consumeSegment`'s in-window test and front trim) -/
+def trimToNew (r : Rcv) (segSeq : Nat) (data : List Nat) : Option (Nat × List Nat) :=
+  if data.length > 0 then
+    if !inWindow r.rcvNxt segSeq data.length then none
+    else if lt segSeq r.rcvNxt then some (r.rcvNxt, data.drop (sizeS segSeq r.rcvNxt)) else some (segSeq, data)
+  else if segSeq != r.rcvNxt then none else some (segSeq, [])
+
+/-- `readyToRead`: one receive-list entry per segment (single view) -/
+def deliver (e : Ep) (data : List Nat) : Ep :=
+  if data.length > 0 then { e with rcvList := e.rcvList ++ [data], rcvBufUsed := e.rcvBufUsed + data.length } else e
+
+def advanceRcv (e : Ep) (nxt : Nat) : Ep := { e with rcv := { e.rcv with rcvNxt := nxt }, sack := trimSack e.sack nxt }
+
+/-- a consumed FIN: one more sequence number, ACK at once, the receive side closes; pending segments are dropped -/
+def consumeFin (e : Ep) : Ep × OutSeg :=
+  let r := sendAck { e with rcv := { e.rcv with rcvNxt := addS e.rcv.rcvNxt 1 } }
+  ({ r.1 with rcv := { r.1.rcv with closed := true, pending := [] }, rcvClosed := true }, r.2)
+
 /-- `consumeSegment` → (ep, consumed?, ack emitted by a FIN) -/
 def consumeSegment (e : Ep) (flags segSeq : Nat) (data : List Nat) : Ep × Bool × List OutSeg :=
-  let r := e.rcv
-  let segLen := data.length
-  let step : Option (Ep × Nat × Nat) :=
-    if segLen > 0 then
-      if !inWindow r.rcvNxt segSeq segLen then none
-      else
-        let (segSeq, data) := if lt segSeq r.rcvNxt then (r.rcvNxt, data.drop (sizeS segSeq r.rcvNxt)) else (segSeq, data)
-        -- readyToRead: one list entry per segment (single view)
-        some ({ e with rcvList := e.rcvList ++ [data], rcvBufUsed := e.rcvBufUsed + data.length }, segSeq, data.length)
-    else if segSeq != r.rcvNxt then none
-    else some (e, segSeq, 0)
-  match step with
+  match trimToNew e.rcv segSeq data with
   | none => (e, false, [])
-  | some (e, segSeq, segLen) =>
-    let nxt := addS segSeq segLen
-    let e := { e with rcv := { e.rcv with rcvNxt := nxt }, sack := trimSack e.sack nxt }
+  | some (sq, d) =>
+    let e1 := advanceRcv (deliver e d) (addS sq d.length)
     if has flags fFin then
-      let e := { e with rcv := { e.rcv with rcvNxt := addS nxt 1 } }
-      let (e, o) := sendAck e
-      -- pending segments are dropped (the first is kept if it is this very segment: irrelevant afterwards)
-      let e := { e with rcv := { e.rcv with closed := true, pending := [] }, rcvClosed := true }
-      (e, true, [o])
-    else (e, true, [])
+      let r := consumeFin e1
+      (r.1, true, [r.2])
+    else (e1, true, [])
 
 def insertPending (x : PSeg) : List PSeg → List PSeg
   | [] => [x]
@@ -426,17 +452,19 @@ def handleBatch (e : Ep) : List InSeg → Ep × List OutSeg × Bool
     if r then (e, o, true)
     else let (e', o', r') := handleBatch e rest; (e', o ++ o', r')
 
+/-- the main loop's exit test: both directions closed and everything acknowledged -/
+def closeIfDone (e : Ep) : Ep :=
+  if e.rcv.closed && e.snd.closed && e.snd.sndUna == e.snd.sndNxtList then { e with state := .closed, done := true } else e
+
 /-- what follows the dequeue loop: the cumulative ACK, and the main loop's exit test -/
 def finishBatch (e : Ep) (out : List OutSeg) (reset : Bool) : Ep × List OutSeg :=
   if reset then
-    -- ErrConnectionReset: resetConnectionLocked sends RST|ACK and the loop ends
-    let o := sendRaw e [] (fAck ||| fRst) e.snd.sndUna e.rcv.rcvNxt 0
-    ({ e with state := .error, hardError := "connection-reset-by-peer", done := true }, out ++ [o])
-  else
-    let (e, o3) := if e.rcv.rcvNxt != e.snd.maxSentAck then let (e, o) := sendAck e; (e, [o]) else (e, [])
-    -- main loop exit condition
-    let fin := e.rcv.closed && e.snd.closed && e.snd.sndUna == e.snd.sndNxtList
-    ((if fin then { e with state := .closed, done := true } else e), out ++ o3)
+    -- ErrConnectionReset: the endpoint enters the error state and the loop ends; a reset is not answered
+    ({ e with state := .error, hardError := "connection-reset-by-peer", done := true }, out)
+  else if e.rcv.rcvNxt != e.snd.maxSentAck then
+    let r := sendAck e
+    (closeIfDone r.1, out ++ [r.2])
+  else (closeIfDone e, out)
 
 def maxSegmentsPerWake : Nat := 100
 
@@ -455,22 +483,22 @@ decreasing_by simp [maxSegmentsPerWake] at *; omega
 /-- one segment through `handleSegments` (the harness delivers one at a time to a running loop) -/
 def handleSegment (e : Ep) (seg : InSeg) : Ep × List OutSeg := handleSegments e [seg]
 
+/-- `handleWrite`: the accepted bytes go to the end of the write list as one entry -/
+def queueWrite (e : Ep) (v : List Nat) : Ep :=
+  { e with sndBufUsed := e.sndBufUsed + v.length,
+           snd := { e.snd with writeList := e.snd.writeList ++ [{ data := v }],
+                               sndNxtList := addS e.snd.sndNxtList v.length,
+                               writeNext := if e.snd.writeNext ≥ e.snd.writeList.length then e.snd.writeList.length else e.snd.writeNext } }
+
 /-- `Write`: returns bytes accepted -/
 def appWrite (e : Ep) (data : List Nat) : Ep × Except String Nat × List OutSeg :=
   if e.state != .connected then (e, .error (if e.state == .error then e.hardError else "endpoint-is-closed-for-send"), []) else
   if data.length == 0 then (e, .ok 0, []) else
   if e.sndClosed then (e, .error "endpoint-is-closed-for-send", []) else
   if e.sndBufUsed ≥ e.sndBufSize then (e, .error "operation-would-block", []) else
-  let avail := e.sndBufSize - e.sndBufUsed
-  let v := data.take avail
-  let e := { e with sndBufUsed := e.sndBufUsed + v.length }
-  -- handleWrite: append to the write list
-  let s := e.snd
-  let wl := s.writeList ++ [{ data := v }]
-  let wn := if s.writeNext ≥ s.writeList.length then s.writeList.length else s.writeNext
-  let s := { s with writeList := wl, sndNxtList := addS s.sndNxtList v.length, writeNext := wn }
-  let (e, out) := sendData { e with snd := s }
-  (e, .ok v.length, out)
+  let v := data.take (e.sndBufSize - e.sndBufUsed)
+  let r := sendData (queueWrite e v)
+  (r.1, .ok v.length, r.2)
 
 def zeroReceiveWindow (e : Ep) (used : Nat) : Bool :=
   if used ≥ e.rcvBufSize then true else ((e.rcvBufSize - used) >>> e.rcv.rcvWndScale) == 0
@@ -494,17 +522,18 @@ def appRead (e : Ep) : Ep × Except String (List Nat) × List OutSeg :=
         else let (e, o) := sendAck e; (e, .ok v, [o])
       else (e, .ok v, [])
 
+/-- `Shutdown(write)`: the FIN is queued behind all data as an entry without payload -/
+def queueFin (e : Ep) : Ep :=
+  { e with sndClosed := true,
+           snd := { e.snd with writeList := e.snd.writeList ++ [{ data := [] }],
+                               sndNxtList := addS e.snd.sndNxtList 1,
+                               writeNext := if e.snd.writeNext ≥ e.snd.writeList.length then e.snd.writeList.length else e.snd.writeNext } }
+
 /-- `Shutdown(write)`: queue the FIN, `handleClose` -/
 def appShutdownWrite (e : Ep) : Ep × List OutSeg :=
   if e.state != .connected || e.sndClosed then (e, []) else
-  let s := e.snd
-  let wl := s.writeList ++ [{ data := [] }]
-  let wn := if s.writeNext ≥ s.writeList.length then s.writeList.length else s.writeNext
-  let s := { s with writeList := wl, sndNxtList := addS s.sndNxtList 1, writeNext := wn }
-  let (e, out) := sendData { e with snd := s, sndClosed := true }
-  let e := { e with snd := { e.snd with closed := true } }
-  let fin := e.rcv.closed && e.snd.closed && e.snd.sndUna == e.snd.sndNxtList
-  ((if fin then { e with state := .closed, done := true } else e), out)
+  let r := sendData (queueFin e)
+  (closeIfDone { r.1 with snd := { r.1.snd with closed := true } }, r.2)
 
 def timerEvent (e : Ep) : Ep × List OutSeg :=
   if e.done then (e, []) else retransmitTimerExpired e
